@@ -429,7 +429,7 @@ func (e *Exec) applyContract(callee *FuncInfo, call *ast.CallExpr, st *State, ct
 			e.emit(st, "pre", fmt.Sprintf("%s.pre[%d]", site, i+1), goal, r.Tags, call.Pos(), callee.Name+" requires "+r.Src)
 		}
 		// termination: calls inside a recursive component must decrease the caller's measure
-		if e.fi.Contract != nil && e.w.sameSCC(e.fi, callee) {
+		if e.sweep && e.fi.Contract != nil && e.w.sameSCC(e.fi, callee) {
 			e.termOb(callee, names, st, call, heapBefore)
 		}
 	} else if e.sweep && e.w.sameSCC(e.fi, callee) {
